@@ -60,8 +60,9 @@ ASSUMPTIONS = [
     'damage model: tip = whole-header overwrite only; all damaged positions strictly above the first header '
     'repair looks at (max(checkpoints)+1000, 999 without checkpoints); no damage inside check-pointed chunks and no fork below a checkpoint',
     'the chain is judged modulo all-zero placeholders of check-pointed chunks that were not downloaded yet; while such a '
-    'placeholder exists only header-aligned cuts are injected (an unaligned size makes repair() start at the placeholder '
-    'and truncate the whole file: documented observation, switch UNALIGNED_CUT_WITH_PLACEHOLDER)',
+    'placeholder exists an unaligned cut makes open() run repair() from height 0, which meets the placeholder instead of '
+    'the genesis header and truncates the whole file: genuine defect recorded as KNOWN finding C07-unaligned-cut-over-placeholder '
+    '(site unaligned_cut_over_placeholder=True); every other reopen violation is still reported',
 ]
 EXPECTED_PROBES = [
     'connect_call', 'valid_ext_stored', 'fork_stored', 'fork_shorter_stale_tail', 'invalid_offered',
@@ -87,7 +88,7 @@ ENABLE_STALE_FAMILY = True
 # (all-zero placeholder) in the file, a cut that leaves the size unaligned makes open() run repair() from
 # height 0, which finds the placeholder instead of the genesis header and truncates the WHOLE file. Set to
 # True to let the check report it (C07.reopen_not_prefix, fault=cut).
-UNALIGNED_CUT_WITH_PLACEHOLDER = False
+UNALIGNED_CUT_WITH_PLACEHOLDER = True
 
 
 # ---------------------------------------------------------------------------------------------------
@@ -508,6 +509,9 @@ class _Exec:
         hi = len(buf) // HS if hi is None else min(hi, len(buf) // HS)
         w = min(lc.common_prefix_headers(buf, self.base), hi)
         return self.chain.first_invalid(buf, w, hi)
+
+    def _uop_site(self):
+        return {'unaligned_cut_over_placeholder': True} if getattr(self, 'unaligned_over_placeholder', False) else {}
 
     def viol(self, kind, detail, **site):
         self.stop = True
@@ -1005,6 +1009,11 @@ class _Exec:
         if cut_at is not None and cut_at % HS and not UNALIGNED_CUT_WITH_PLACEHOLDER and self.filled(F) != F:
             cut_at -= cut_at % HS
             run.probes['cut_aligned_because_placeholder'] += 1
+        # the specific input class of the known finding: an unaligned cut while a check-pointed chunk is still an
+        # all-zero placeholder (open() then runs repair() from height 0)
+        self.unaligned_over_placeholder = bool(cut_at is not None and cut_at % HS and self.filled(F) != F)
+        if self.unaligned_over_placeholder:
+            run.probes['unaligned_cut_over_placeholder'] += 1
         if cut_at is not None:
             new_tip = cut_at // HS - 1
             for p, byte, mask in flips:
@@ -1066,14 +1075,14 @@ class _Exec:
             d = lc.common_prefix_headers(loaded, R)
             return self.viol('C07.reopen_not_prefix', f'after {fault} the loaded chain ({L2} headers) differs from '
                              f'the {Rh} stored headers at height {d} (file had {Wc} whole headers, damaged {sorted(D)})',
-                             fault=fault, tip_edge=edge)
+                             fault=fault, tip_edge=edge, **self._uop_site())
         cands = list(D) + ([fi_R] if fi_R < Rh else [])
         first_bad = min(cands) if cands else None
         need = Wc if first_bad is None or first_bad >= Wc else first_bad - 1
         if L2 < need:
             return self.viol('C07.reopen_dropped_too_much', f'after {fault} {L2} headers were loaded; {Wc} whole '
                              f'headers were in the file, first damaged/stale height {first_bad}: at least {need} '
-                             f'must survive', fault=fault, tip_edge=edge)
+                             f'must survive', fault=fault, tip_edge=edge, **self._uop_site())
         fi_L = min(fi_R, L2)
         rule = self.chain.first_invalid(R, fi_L, fi_L + 1)[1] if fi_L < L2 else None
         if fi_L < L2 and fi_L == Wc - 1 and rule in ('bits', 'pow') and fi_L not in D:
